@@ -318,6 +318,12 @@ func (e *kvElection) attemptAcquireWithRetry(ctx context.Context) {
 }
 
 func (e *kvElection) attemptAcquire() error {
+	// A leader has nothing to acquire (attempts started while following can still be
+	// pending when another one wins).
+	if e.IsLeader() {
+		return nil
+	}
+
 	token := uuid.New().String()
 
 	payload := leadershipPayload{
@@ -396,6 +402,19 @@ func (e *kvElection) running() bool {
 func (e *kvElection) becomeLeader(token string, rev uint64) bool {
 	e.mu.Lock()
 	defer e.mu.Unlock()
+
+	if e.isLeader.Load() {
+		// Another acquisition attempt of this instance has already won. Never start a
+		// second term (token, loops, OnPromote) on top of a running one; the heartbeat of
+		// the running term will find the record changed and step down.
+		log := e.getLogger()
+		log.Warn("promotion_refused_already_leader",
+			append(e.logWithContext(e.ctx),
+				zap.Uint64("revision", rev),
+			)...,
+		)
+		return false
+	}
 
 	if !e.running() {
 		e.acquiredWhileStopping.Store(true)
@@ -546,8 +565,7 @@ func (e *kvElection) attemptPriorityTakeover(payloadBytes []byte) error {
 		return fmt.Errorf("failed to unmarshal payload after takeover: %w", err)
 	}
 
-	e.revision.Store(newRev)
-	e.token.Store(newPayloadStruct.Token)
+	// Token and revision are published by becomeLeader (under e.mu), and only if the promotion is accepted.
 	if !e.becomeLeader(newPayloadStruct.Token, newRev) {
 		return ErrAlreadyStopped
 	}
